@@ -1340,6 +1340,15 @@ def evaluate(cfg):
             if n_got != cfg["n"] or kw_got != cfg["kwargs"]:
                 bad.append(("C05_kwargs_forwarded", f"back end {label} called with n_eigenvecs={n_got!r}, kwargs={kw_got!r}; the request had n_eigenvecs={cfg['n']!r}, kwargs={cfg['kwargs']!r}"))
                 break
+    # round 7: the documented mask type is "array of booleans"; the rest of the check uses 0.0 / 1.0 masks.  A boolean (or integer) mask with
+    # the same pattern must give bitwise the same triple (the code casts the mask into the numeric context of the data first)
+    if cfg["mask"] is not None and cfg["n"] is not None and out[0] == "ok" and not bad and \
+            (cfg["method"] != "randomized_svd" or "random_state" in cfg["kwargs"]) and finite3(out[1]):
+        for caster in (bool, int):
+            outb, _ = run_interface(cfg["matrix"], cfg["method"], cfg["n"], cfg["flip"], cfg["ub"], cfg["nn"], cfg["mask"].astype(caster), cfg["iters"], cfg["kwargs"])
+            if outb[0] != "ok" or not all(np.array_equal(np.asarray(a), np.asarray(b)) for a, b in zip(out[1], outb[1])):
+                bad.append(("C05_mask_dtype", f"a {caster.__name__} mask with the same pattern gives a different result / fails: {outb[0]} {str(outb[1])[:100] if outb[0] != 'ok' else ''}"))
+                break
     if cfg["flip"] and cfg["nn"] in (None, False) and cfg["mask"] is None and not bad:
         out0, _ = run_interface(cfg["matrix"], cfg["method"], cfg["n"], False, cfg["ub"], cfg["nn"], None, 0, cfg["kwargs"])
         m = flip_keeps_product(cfg, out, out0)
